@@ -22,9 +22,11 @@ import (
 func init() { register("C09", true, checkC09) }
 
 func checkC09(p *Prog, r *Report) {
-	r.Explain("SIG: the decision list reached from imagetype.Buf is read from the typed syntax tree as ordered (predicate → type) rules; every predicate is expanded to a DNF of byte cubes over the 24-byte window (calls, sub-slices, string comparisons, && / || with Go precedence); checked: every position < 24, per image type the cube set equals the independently written table spec/signatures.json, overlapping types are tested in the order the table requires, no rule is shadowed. FUNNEL: Scan, ScanBuf and ReadAt return Buf applied to exactly the first 24 bytes (Peek(24) / ReadAt(buf[:24],0)) and (ImageUnknown, err) on a read error. PEEKONLY: nothing reachable from ScanBuf consumes from the bufio.Reader. ERRMAP: Buf returns (ImageUnknown, ErrDataLength) below 24 bytes and ErrImageTypeNotFound exactly when the type is ImageUnknown. PEEKSZ: constant Peek sizes do not exceed constant NewReaderSize sizes in the same function.")
+	r.Explain("SIG: the decision list reached from imagetype.Buf is read from the typed syntax tree as ordered (predicate → type) rules; every predicate is expanded to a DNF of byte cubes over the 24-byte window (calls, sub-slices, string comparisons, && / || with Go precedence); checked: every position < 24, per image type the cube set equals the independently written table spec/signatures.json, overlapping types are tested in the order the table requires, no rule is shadowed. FUNNEL: Scan, ScanBuf and ReadAt return Buf applied to exactly the first 24 bytes (Peek(24) / ReadAt(buf[:24],0)) and (ImageUnknown, err) on a read error. PEEKONLY: nothing reachable from ScanBuf consumes from the bufio.Reader. ERRMAP: Buf returns (ImageUnknown, ErrDataLength) below 24 bytes and ErrImageTypeNotFound exactly when the type is ImageUnknown. PEEKSZ: constant Peek sizes do not exceed constant NewReaderSize sizes in the same function. SIGPOS: for every type the recognisers named in its rule read, transitively through helpers given constant windows, only header positions that spec/signatures.json constrains for that type — decided on SSA read sets, so it also holds recognisers outside the predicate grammar to the signature.")
 	r.Trusted("bufio.Reader.Peek returns exactly n bytes or an error", "io.ReaderAt contract")
 	ruleSIG(p, r)
+	ruleSigPos(p, r)
+	r.Floor("SIGPOS", 10)
 	ruleFunnel(p, r)
 	rulePeekOnly(p, r)
 	ruleErrMap(p, r)
@@ -490,6 +492,12 @@ func (env *predEnv) window(e ast.Expr) (window, error) {
 		if w, ok := env.wins[env.pkg.TypesInfo.Uses[x]]; ok {
 			return w, nil
 		}
+		// a local defined once as a window of the buffer: sig := buf[:4]
+		if d, ok := env.defs[env.pkg.TypesInfo.Uses[x]]; ok {
+			if _, isSl := stripParen(d).(*ast.SliceExpr); isSl {
+				return env.window(d)
+			}
+		}
 		return window{}, undecidedErr{"identifier " + x.Name + " is not a window of the header buffer"}
 	case *ast.SliceExpr:
 		w, err := env.window(x.X)
@@ -533,6 +541,46 @@ func (env *predEnv) stringOf(e ast.Expr) (string, bool) {
 	switch x := e.(type) {
 	case *ast.ParenExpr:
 		return env.stringOf(x.X)
+	case *ast.CallExpr:
+		// []byte("literal")
+		if len(x.Args) == 1 {
+			if tv, ok := env.pkg.TypesInfo.Types[x.Fun]; ok && tv.IsType() {
+				if sl, ok := tv.Type.Underlying().(*types.Slice); ok {
+					if b, ok := sl.Elem().Underlying().(*types.Basic); ok && b.Kind() == types.Uint8 {
+						return env.stringOf(x.Args[0])
+					}
+				}
+			}
+		}
+	case *ast.CompositeLit:
+		// []byte{'M', 'M', 0, '*'} (positional elements only)
+		if tv, ok := env.pkg.TypesInfo.Types[x]; ok {
+			var elem types.Type
+			switch u := tv.Type.Underlying().(type) {
+			case *types.Slice:
+				elem = u.Elem()
+			case *types.Array:
+				elem = u.Elem()
+			}
+			if b, ok := elem.(*types.Basic); elem != nil && ok && b.Kind() == types.Uint8 || elem != nil && isByteType(elem) {
+				out := make([]byte, 0, len(x.Elts))
+				for _, el := range x.Elts {
+					if _, kv := el.(*ast.KeyValueExpr); kv {
+						return "", false
+					}
+					v, ok := env.constOf(el)
+					if !ok {
+						return "", false
+					}
+					k, ok := constant.Int64Val(constant.ToInt(v))
+					if !ok || k < 0 || k > 255 {
+						return "", false
+					}
+					out = append(out, byte(k))
+				}
+				return string(out), true
+			}
+		}
 	case *ast.Ident:
 		if s, ok := env.strs[env.pkg.TypesInfo.Uses[x]]; ok {
 			return s, true
@@ -565,6 +613,11 @@ func (env *predEnv) stringOf(e ast.Expr) (string, bool) {
 		return s[lo:hi], true
 	}
 	return "", false
+}
+
+func isByteType(t types.Type) bool {
+	b, ok := t.Underlying().(*types.Basic)
+	return ok && b.Kind() == types.Uint8
 }
 
 // byteWindowOfStringConv: string(win) → window
@@ -877,6 +930,32 @@ func (env *predEnv) evalCall(ce *ast.CallExpr) (dnf, error) {
 	}
 	if fobj == nil {
 		return nil, undecidedErr{"call of something that is not a declared function at " + env.p.posStr(ce.Pos())}
+	}
+	if fobj.Pkg() != nil && fobj.Pkg().Path() == "bytes" && fobj.Name() == "Equal" && len(ce.Args) == 2 {
+		for _, pr := range [][2]ast.Expr{{ce.Args[0], ce.Args[1]}, {ce.Args[1], ce.Args[0]}} {
+			w, err := env.window(stripParen(pr[0]))
+			if err != nil {
+				continue
+			}
+			lit, ok := env.stringOf(stripParen(pr[1]))
+			if !ok {
+				return nil, undecidedErr{"bytes.Equal of a window with a non-constant at " + env.p.posStr(ce.Pos())}
+			}
+			if w.length < 0 {
+				return nil, undecidedErr{"bytes.Equal on a window of unknown length at " + env.p.posStr(ce.Pos())}
+			}
+			if w.length != len(lit) {
+				return dnfFalse(), nil
+			}
+			c := cube{}
+			for i := 0; i < len(lit); i++ {
+				var bs byteset
+				bs.set(lit[i])
+				c[w.off+i] = bs
+			}
+			return dnf{c}, nil
+		}
+		return nil, undecidedErr{"bytes.Equal without a window of the header at " + env.p.posStr(ce.Pos())}
 	}
 	fd, pk := env.p.declOf(fobj)
 	if fd == nil || fd.Body == nil {
